@@ -7,7 +7,7 @@ import ast
 from ..cfg import CFG
 from ..model import AnalysisError, chain, unparse
 from ..report import RuleResult
-from ._c11_sem import Facts, call_name, closer, falsy_result, node_calls, node_of, path_text, reach3, truthy_source
+from ._c11_sem import Facts, call_name, closer, cm_released_args, falsy_result, handlers_around, node_calls, node_of, path_text, protected, reach3, truthy_source
 
 
 def _is_h5py_file(p, mod, ch) -> bool:
@@ -93,21 +93,20 @@ def _handles(fn, call, kind) -> set:
     return out
 
 
-def _releaser(fn, call, kind):
+def _closer(p, fn, handles):
+    """closer() that also follows generator context managers of the package (`with <cm>(<h>):`)."""
+    return closer(fn.node, handles, released_by=lambda c: cm_released_args(p, fn, c))
+
+
+def _releaser(p, fn, call, kind):
     """Predicate on CFG nodes of fn: the node releases the handle opened by `call` (close() on it, the exit of a
     with-block over it or over closing(it), the exit of the with-block whose item the call is)."""
-    base = closer(fn.node, _handles(fn, call, kind))
+    base = _closer(p, fn, _handles(fn, call, kind))
     withs = [w for w in ast.walk(fn.node) if isinstance(w, (ast.With, ast.AsyncWith)) and any(any(x is call for x in ast.walk(it.context_expr)) for it in w.items)]
     return lambda n: base(n) or (n.kind == "withexit" and any(n.stmt is w for w in withs))
 
 
-def _protected(g, node, releases) -> bool:
-    """Exceptions raised at `node` are intercepted (try / with frame) and every path out of it, normal or exceptional,
-    passes a release before leaving the function."""
-    if not any(l == "exc" for _, l in node.succ):
-        return False
-    after = reach3(g, [m for m, _ in node.succ], avoid=releases)
-    return g.exit not in after and g.rexit not in after
+_protected = protected
 
 
 def rule_pair(ctx) -> RuleResult:
@@ -142,7 +141,7 @@ def rule_pair(ctx) -> RuleResult:
             node = node_of(g, call)
             if node is None:
                 raise AnalysisError(f"{fn.qualname}:{call.lineno}: acquisition not found in the control-flow graph")
-            closes_h = closer(fn.node, handles)
+            closes_h = _closer(p, fn, handles)
             # moving the local into the gateway field hands it to Workspace.close()
             to_gateway = lambda n: isinstance(n.ast, (ast.Assign, ast.AnnAssign)) and _is_gateway(fn, _target(n.ast)) and n.ast.value is not None and closes_h.denotes(n.ast.value)  # noqa: E731
             closes = lambda n: closes_h(n) or to_gateway(n)  # noqa: E731
@@ -170,7 +169,7 @@ def rule_pair(ctx) -> RuleResult:
             # (try/finally, or `with closing(workspace)`)
             g = CFG(fn.node)
             node = node_of(g, call)
-            if node is not None and _protected(g, node, closer(fn.node, handles)):
+            if node is not None and _protected(g, node, _closer(p, fn, handles)):
                 how = "yielded inside try/finally: close()"
         if how is None:
             res.inst(f"{fn.qualname}:{call.lineno} {kind} -> release not recognised", ok=False)
@@ -280,7 +279,7 @@ def rule_exit(ctx) -> RuleResult:
     for spec in ("shared/utils.py:fetch_active_workspace", "shared/utils.py:fetch_h5_handle"):
         fn = p.func(spec)
         g = CFG(fn.node)
-        acqs = [(c, k, node_of(g, c), _releaser(fn, c, k)) for f, c, k in _acq(ctx) if f.node is fn.node]
+        acqs = [(c, k, node_of(g, c), _releaser(p, fn, c, k)) for f, c, k in _acq(ctx) if f.node is fn.node]
         for y in [n for n in ast.walk(fn.node) if isinstance(n, ast.Yield)]:
             yn = node_of(g, y)
             if yn is None:
@@ -308,18 +307,22 @@ def rule_gate(ctx) -> RuleResult:
     io = ctx.view("Workspace._io_call")
     sn = io.self_name or "self"
     g = CFG(io.node)
-    handlers = [h for t in ast.walk(io.node) if isinstance(t, ast.Try) for h in t.handlers]
-    hs = [h for h in handlers if h.type is not None and "Geoh5FileClosedError" in unparse(h.type)]
-    ok = bool(hs) and all(any(isinstance(x, ast.Raise) for x in ast.walk(h)) for h in hs)
-    # ... on every path through the handler: it never completes normally
-    for h in hs:
-        hn = next((n for n in g.nodes if n.kind == "except" and n.ast is h), None)
-        if hn is not None and g.exit in reach3(g, [hn]):
+    # the handlers that intercept the closed-file error raised in the body of _io_call: its own `except` clauses, or those
+    # around the `yield` of a generator context manager the body runs in (`with self._guard(..):`)
+    catches = lambda h: h.type is not None and "Geoh5FileClosedError" in unparse(h.type)  # noqa: E731
+    hs = handlers_around(p, io, catches, view=ctx.view)
+    ok = bool(hs) and all(any(isinstance(x, ast.Raise) for x in ast.walk(h)) for _f, _t, h in hs)
+    # ... on every path through the handler: it never completes normally (in a generator context manager that would
+    # swallow the error: the with-block ends silently and _io_call returns None)
+    for owner, _t, h in hs:
+        og = g if owner is io else CFG(owner.node)
+        hn = next((n for n in og.nodes if n.kind == "except" and n.ast is h), None)
+        if hn is None or og.exit in reach3(og, [hn]):
             ok = False
     res.inst("_io_call: `except Geoh5FileClosedError` re-raises a dedicated error", ok=ok)
     if not ok:
         res.find("Workspace", "_io_call", "closed-file error is swallowed", io.where, "calls on a closed workspace return None instead of raising")
-    for h in hs:
+    for _f, _t, h in hs:
         g_ok = all(not (isinstance(s, ast.Return)) for s in ast.walk(h))
         res.inst("_io_call: the closed-file handler has no return (never yields stale / empty results)", ok=g_ok)
         if not g_ok:
